@@ -504,6 +504,10 @@ pub mod sync {
             }
         }
         pub fn try_lock(&self) -> TryLockResult<MutexGuard<'_, T>> {
+            // whether the lock is free is an observation of what the other threads are doing
+            if let Some(s) = scheduler() {
+                s.before(LockOp::Lock, std::any::type_name::<T>(), self as *const Self as *const () as usize);
+            }
             self.0.try_lock()
         }
         pub fn get_mut(&mut self) -> LockResult<&mut T> {
@@ -580,9 +584,15 @@ pub mod sync {
             }
         }
         pub fn try_read(&self) -> TryLockResult<RwLockReadGuard<'_, T>> {
+            if let Some(s) = scheduler() {
+                s.before(LockOp::Read, std::any::type_name::<T>(), self as *const Self as *const () as usize);
+            }
             self.0.try_read()
         }
         pub fn try_write(&self) -> TryLockResult<RwLockWriteGuard<'_, T>> {
+            if let Some(s) = scheduler() {
+                s.before(LockOp::Write, std::any::type_name::<T>(), self as *const Self as *const () as usize);
+            }
             self.0.try_write()
         }
         pub fn get_mut(&mut self) -> LockResult<&mut T> {
